@@ -20,6 +20,6 @@ def run(tier, t0):
     res.obs = [o for o in res.obs if o.file in ('core/directives_data.cpp', 'core/add_bin.cpp', 'core/Memory.cpp')]
     res.floor = 10
     results = [res, passes.docrange(prog), passes.res(prog, cg), passes.directives(prog), passes.unit(prog),
-               passes.rpass(prog, cg)]
+               passes.rpass(prog, cg), lane.wrap_pages(prog, 2)]
     return report.finish('C05', tier, results, EXPLANATION,
                          ['documented ranges of .db/.dw as stated in the property'], common.TRUSTED, t0)
